@@ -4512,7 +4512,7 @@ int bufr_genmsgs_from_dump
    fpi = fopen ( infile, "rb" ) ;
    if (fpi == NULL) 
       {
-      sprintf( errmsg, _("Error: can't open input file %s\n"), infile );
+      snprintf( errmsg, sizeof(errmsg), _("Error: can't open input file %s\n"), infile );
       bufr_print_debug( errmsg );
       return -1;
       }
@@ -4520,7 +4520,7 @@ int bufr_genmsgs_from_dump
    fpo = fopen ( outfile, "wb" ) ;
    if (fpo == NULL) 
       {
-      sprintf( errmsg, _("Error: can't open output file %s\n"), outfile );
+      snprintf( errmsg, sizeof(errmsg), _("Error: can't open output file %s\n"), outfile );
       bufr_print_debug( errmsg );
       fclose( fpi );
       return -1;
